@@ -1,6 +1,11 @@
 package headers
 
-import "fmt"
+import (
+	"bytes"
+	"fmt"
+
+	"github.com/tokenized/pkg/wire"
+)
 
 func init() {
 	verifHarnesses["VerifC10Clean"] = VerifC10Clean
@@ -202,5 +207,73 @@ func VerifC11Resave() {
 	}
 	verifObserve("state", before)
 	verifAssert(h.observeRepo(r) == before, "loaded-repository-reports-different-state")
+	verifReach("done")
+}
+
+func init() {
+	verifHarnesses["VerifC11Migrate"] = VerifC11Migrate
+}
+
+// VerifC11Migrate: storage holding only legacy version-0 header files (80-byte headers, no work)
+// is migrated by Load: the chain, heights and cumulative work are those of the stored headers, and
+// a following Save/Load round trip restores the same repository.
+func VerifC11Migrate() {
+	perFile := verifParam("perfile", 2) // must equal the (scaled) headersPerFile constant
+	n := 1 + pick("count", verifParam("maxcount", 5))
+	h := newHist(1000)
+	// legacy chain: genesis plus n-1 headers with table weights
+	chain := []*wire.BlockHeader{h.hdr[0]}
+	for i := 1; i < n; i++ {
+		w := pick(fmt.Sprintf("weight%d", i), h.weights)
+		hd := &wire.BlockHeader{Version: 1, Timestamp: uint32(1600000000 + i), Bits: verifBitsTable[w], Nonce: uint32(7000 + i)}
+		hd.PrevBlock = *chain[i-1].BlockHash()
+		chain = append(chain, hd)
+		h.record(hd, i-1)
+	}
+	store := newVerifStore()
+	for f := 0; f*perFile < n; f++ {
+		var buf bytes.Buffer
+		buf.WriteByte(0) // version 0
+		for i := f * perFile; i < n && i < (f+1)*perFile; i++ {
+			chain[i].Serialize(&buf)
+		}
+		store.data[headersFilePath(f)] = buf.Bytes()
+	}
+	r := NewRepository(h.cfg, store)
+	r.DisableDifficulty()
+	if err := r.Load(h.ctx); err != nil {
+		verifAssert(false, "load-of-legacy-files-returns-error")
+		return
+	}
+	verifObserve("migrated", n, r.Height())
+	verifAssert(r.Height() == n-1, "migrated-height-wrong")
+	verifAssert(r.AccumulatedWork().Cmp(h.cum[n-1]) == 0, "migrated-work-wrong")
+	h.repo = r
+	h.checkChain("migrated:", n-1)
+	for i := 0; i < n; i++ {
+		verifAssert(r.HashHeight(h.hash[i]) == i, "migrated-hash-height-wrong")
+	}
+	// the migrated repository survives a Save/Load round trip
+	prune := verifParam("prune", 3)
+	if verifParam("fullcompare", 0) == 1 {
+		prune = 0 // debugging aid: compare everything, including what Load legitimately prunes
+	}
+	before := h.observeBest(r, prune)
+	if err := r.Save(h.ctx); err != nil {
+		verifAssert(false, "save-after-migration-returns-error")
+		return
+	}
+	r2 := NewRepository(h.cfg, store)
+	r2.DisableDifficulty()
+	if err := r2.Load(h.ctx); err != nil {
+		verifAssert(false, "load-after-migration-returns-error")
+		return
+	}
+	after := h.observeBest(r2, prune) // Load prunes to the retained depth: compare what must survive
+	if after != before {
+		verifObserve("before", before)
+		verifObserve("after", after)
+	}
+	verifAssert(after == before, "repository-differs-after-migration-round-trip")
 	verifReach("done")
 }
